@@ -61,7 +61,7 @@ CHECKS = {
    ref="DESIGN.md §4 C04"),
  "C05": dict(
    text="Real publisher.run / _subscription.run (and clones of clones) below a fake root subscription: the environment publishes opaque events and attaches subscribers and clones at solver-chosen points of the stream (optionally at a quiescent moment), in every order up to K actions, including closing one of the subscribers mid-stream, with every iteration order of the publisher's subscription map; all interleavings explored. At quiescence z3/the engine show every subscriber received a contiguous suffix of the published sequence, in order, without duplicate, containing at least every event published after its Subscribe returned (exactly those when it subscribed at a quiescent moment). The cache-not-older clause is asserted in the controller harness (send happens after the cache update).",
-   note="Bounds: quick K<=5 actions, clone depth <=3; thorough K<=6. Streams mix creates, strictly newer updates and deletes. Backlog stays below the real EventBufsiz (100). Map iteration order of the subscription set is insertion order (order of sends to different subscribers is not observable by them).",
+   note="Bounds: K<=5 actions, clone depth <=3 (K=6 exceeds 15 minutes with mixed streams and is not registered). Streams mix creates, strictly newer updates and deletes. Backlog stays below the real EventBufsiz (100). Map iteration order of the subscription set is insertion order (order of sends to different subscribers is not observable by them).",
    ref="DESIGN.md §4 C05"),
  "C10": dict(
    text="Real publisher / subscription / filtered clone / filtered subscription / monitor with one consumer that never reads and one healthy consumer that keeps its backlog below the buffer, for streams of 0..2B+1 events with EventBufsiz scaled to B; all interleavings explored. The engine shows no stuck state (the stream is always accepted), the healthy consumer receives all events in order, the parent cache holds all objects, and what the stalled consumer later drains is an in-order subsequence of at least min(m,B) events.",
